@@ -463,17 +463,20 @@ var _ = net.IPv4zero
 // classifier S26: the history restarts the agent while a STUN / TURN exchange of the running gathering
 // cycle is unanswered; Close only waits for the current cycle, the superseded one lives until its own I/O timeout.
 func c08death(hist []string, stderr string) string {
-	gathering := false
+	// Close does wait for the cycle that was started last (also after a Restart); only a cycle that a later
+	// GatherCandidates replaced is not waited for: the finding needs gather .. restart .. gather.
+	gathering, superseded := false, false
 	for _, ev := range hist {
 		switch {
 		case ev == "gather":
-			gathering = true
-		case ev == "timeout":
-			gathering = false
-		case ev == "restart" && gathering:
-			if strings.Contains(stderr, "gatherCandidates") {
+			if superseded && strings.Contains(stderr, "gatherCandidates") {
 				return "S26"
 			}
+			gathering = true
+		case ev == "timeout":
+			gathering, superseded = false, false
+		case ev == "restart" && gathering:
+			superseded = true
 		}
 	}
 
